@@ -198,7 +198,7 @@ def l1_chunk(args):
 
 
 # ------------------------------------------------------------------------------------------------ L1b: from full assignments
-PENALTIES = (0.5, 1.0, 3.0, 0.6 + 0.1 + 0.1, 0.8)      # the last two differ in the last bit only (0.7999999999999999 / 0.8)
+PENALTIES = (0.5, 0.6, 0.7, 1.0, 3.0, 0.6 + 0.1 + 0.1, 0.8)      # the last two differ in the last bit only (0.7999999999999999 / 0.8)
 
 
 def l1b_all(_):
@@ -234,6 +234,10 @@ def l1b_all(_):
     def basic(ra, route):
         if route == "ctor":
             return IA.BasicReadAssignment(ra)
+        if route == "pickle":
+            # --high_memory with several threads: the records come back from the worker processes pickled
+            import pickle
+            return pickle.loads(pickle.dumps(IA.BasicReadAssignment(ra)))
         buf = io.BytesIO()
         ra.serialize(buf)
         buf.seek(0)
@@ -242,7 +246,7 @@ def l1b_all(_):
     for p1, p2 in itertools.product(PENALTIES, PENALTIES):
         for sec1, sec2 in ((False, True), (True, False), (True, True)):
             for nt1, nt2 in ((1, 1), (2, 1), (2, 2)):
-                for route in ("ctor", "stream"):
+                for route in ("ctor", "stream", "pickle"):
                     for order in ((0, 1), (1, 0)):
                         n += 1
                         ras = [full(0, "c1", "G1", ["T1", "T2"][:nt1], p1, sec1), full(1, "c2", "G3", ["T4", "T5"][:nt2], p2, sec2)]
@@ -270,10 +274,11 @@ def l1b_all(_):
                                         "keeps %s" % (p1, p2, "both secondary" if not prim else "one primary", route, kept, exp)))
     # default mode (stream) and --high_memory (constructor) must retain the same alignments
     for case_, r in sorted(by_route.items(), key=str):
-        if len(r) == 2 and r["ctor"] != r["stream"]:
+        if len(set(map(tuple, r.values()))) > 1:
             bad.append(("l1b:mode-dependent", case_[:6] + ("both", case_[6]),
-                        "penalties %r / %r: records made by the constructor (--high_memory) keep %s, records read from the saved stream "
-                        "(default) keep %s" % (case_[0], case_[1], r["ctor"], r["stream"])))
+                        "penalties %r / %r: records made by the constructor (--high_memory) keep %s, pickled records (--high_memory, "
+                        "several threads) keep %s, records read from the saved stream (default) keep %s" %
+                        (case_[0], case_[1], r.get("ctor"), r.get("pickle"), r.get("stream"))))
             break
     return n, bad[:20]
 
